@@ -269,6 +269,14 @@ func flight4Generate( //nolint:cyclop
 			MasterKeyIdentifier: bytes.Clone(srtpDecision.MasterKeyIdentifier),
 		})
 	}
+	selectedProto, err := extension.ALPNProtocolSelection(cfg.SupportedProtocols, state.PeerSupportedProtocols)
+	if err != nil {
+		return nil, &alert.Alert{Level: alert.Fatal, Description: alert.NoApplicationProtocol}, err
+	}
+	state.NegotiatedProtocol = selectedProto
+	if selectedProto != "" {
+		encryptedExtensionsList = append(encryptedExtensionsList, &extension.ALPNSelection{Protocol: selectedProto})
+	}
 	encryptedExtensions := HandshakePacket(&handshake.MessageEncryptedExtensions{
 		Extensions: encryptedExtensionsList,
 	})
